@@ -1271,3 +1271,79 @@ CONTROLS['C15'] = [
       "        try:\n            amount = int(amount)\n        except ValueError:",
       "        try:\n            amount = int(amount.strip())\n        except (ValueError, TypeError):"),
 ]
+
+MV = 'placement/microversion.py'
+CONTROLS['C14'] = [
+    M('c14-reshaper-from-1.29', H + 'reshaper.py',
+      "@microversion.version_handler('1.30')", "@microversion.version_handler('1.29')",
+      'R14.'),
+    M('c14-swap-elif-arms', HRP,
+      "    elif want_version.matches((1, 14)):\n        schema = rp_schema.GET_RPS_SCHEMA_1_14\n"
+      "    elif want_version.matches((1, 4)):\n        schema = rp_schema.GET_RPS_SCHEMA_1_4\n",
+      "    elif want_version.matches((1, 4)):\n        schema = rp_schema.GET_RPS_SCHEMA_1_4\n"
+      "    elif want_version.matches((1, 14)):\n        schema = rp_schema.GET_RPS_SCHEMA_1_14\n",
+      'R14.2'),
+    M('c14-consumer-generation-gate-1.27', HU,
+      "    requires_consumer_generation = want_version.matches((1, 28))",
+      "    requires_consumer_generation = want_version.matches((1, 27))", 'R14.4'),
+    M('c14-drop-latest-version', MV,
+      "    '1.39',  # Adds support for the ``in:`` syntax in the ``required`` query\n"
+      "             # parameter in the ``GET /resource_providers`` API as well as to\n"
+      "             # the ``required`` and ``requiredN`` query params of the\n"
+      "             # ``GET /allocation_candidates`` API.\n", "", 'R14.1'),
+    M('c14-schema-list-misordered', HAC,
+      "    (1, 36), (1, 35), (1, 33), (1, 31), (1, 25), (1, 21), (1, 17), (1, 16)",
+      "    (1, 35), (1, 36), (1, 33), (1, 31), (1, 25), (1, 21), (1, 17), (1, 16)",
+      'R14.'),
+    M('c14-post-alloc-gate-inverted', HA,
+      "    if want_version.matches((1, 38)):\n        want_schema = schema.POST_ALLOCATIONS_V1_38\n    data = util.extract_json(req.body, want_schema)",
+      "    if not want_version.matches((1, 38)):\n        want_schema = schema.POST_ALLOCATIONS_V1_38\n    data = util.extract_json(req.body, want_schema)",
+      'R14.'),
+    M('c14-post-alloc-overriding-order', HA,
+      "    if want_version.matches((1, 28)):\n        want_schema = schema.POST_ALLOCATIONS_V1_28\n"
+      "    if want_version.matches((1, 34)):\n        want_schema = schema.POST_ALLOCATIONS_V1_34\n",
+      "    if want_version.matches((1, 34)):\n        want_schema = schema.POST_ALLOCATIONS_V1_34\n"
+      "    if want_version.matches((1, 28)):\n        want_schema = schema.POST_ALLOCATIONS_V1_28\n",
+      'R14.2'),
+    M('c14-window-gap', HA,
+      "@microversion.version_handler('1.8', '1.11')", "@microversion.version_handler('1.8', '1.10')",
+      'R14.1'),
+    M('c14-window-wrong-schema', HA,
+      "    return _set_allocations_for_consumer(req, schema.ALLOCATION_SCHEMA_V1_34)",
+      "    return _set_allocations_for_consumer(req, schema.ALLOCATION_SCHEMA_V1_28)",
+      'R14.2'),
+    M('c14-param-accepted-early', 'placement/schemas/resource_provider.py',
+      'GET_RPS_SCHEMA_1_3[\'properties\'][\'member_of\'] = {\n    "type": "string"\n}\n',
+      'GET_RPS_SCHEMA_1_3[\'properties\'][\'member_of\'] = {\n    "type": "string"\n}\n'
+      'GET_RPS_SCHEMA_1_3[\'properties\'][\'resources\'] = {"type": "string"}\n',
+      'R14.3'),
+    M('c14-param-dropped-later', 'placement/schemas/allocation_candidate.py',
+      'GET_SCHEMA_1_36 = copy.deepcopy(GET_SCHEMA_1_35)\n',
+      'GET_SCHEMA_1_36 = copy.deepcopy(GET_SCHEMA_1_35)\ndel GET_SCHEMA_1_36["properties"]["root_required"]\n',
+      None),
+    M('c14-middleware-other-versions', 'placement/deploy.py',
+      "        application, microversion.SERVICE_TYPE, microversion.VERSIONS,",
+      "        application, microversion.SERVICE_TYPE, microversion.VERSIONS[:-1],",
+      'R14.5'),
+    M('c14-links-gate-moved', HRP,
+      "    if want_version >= (1, 11):\n        rel_types.append('allocations')",
+      "    if want_version >= (1, 12):\n        rel_types.append('allocations')", 'R14.4'),
+    M('c14-last-modified-inverted', H + 'root.py',
+      "    if want_version.matches((1, 15)):", "    if not want_version.matches((1, 15)):",
+      'R14.4'),
+    M('c14-delete-inventories-404', HI,
+      "@microversion.version_handler('1.5', status_code=405)", "@microversion.version_handler('1.5')",
+      'R14.4'),
+    M('c14-history-missing-section', 'placement/rest_api_version_history.rst',
+      "1.23 - Include 'code' attribute in JSON error responses\n~~~~~",
+      "Include 'code' attribute in JSON error responses\n~~~~~", 'R14.1'),
+    B('c14-benign-gate-via-constant', HU,
+      "    requires_consumer_type = want_version.matches((1, 38))",
+      "    requires_consumer_type = want_version.matches(min_version=(1, 38))"),
+]
+for _c in CONTROLS['C14']:
+    if _c['id'] == 'c14-param-dropped-later':
+        # root_required documented from 1.35: silently dropping it at 1.36
+        # keeps "accepted at 1.35, not at 1.34" true; it is caught only by
+        # the subset/monotonicity obligation
+        _c['expect'] = 'R14.2'
